@@ -219,7 +219,8 @@ def timing_rule(ctx):
     cr = N("can_reach")
     must_depend(ctx, "R3.can_reach-inputs", "T1", cr, "ret",
                 [field(CFG, "forbid_dead_head_trip"), call(N("minimal_duration_between_nodes_as_ref")), call(ND("end_time")), call(ND("start_time")),
-                 call(ND("end_location")), call(ND("start_location")), call(ND("is_start_depot")), call(ND("is_end_depot")), "param:2", "param:3"],
+                 call(ND("end_location")), call(ND("start_location")),
+                 (call(ND("is_start_depot")), "discr:" + NODE), (call(ND("is_end_depot")), "discr:" + NODE), "param:2", "param:3"],
                 "can_reach depends on the forbid flag, the turnaround rule, both times, both locations and the depot kinds")
     o, fd = ctx.require_fn("R3.can_reach-shape", "T12", cr, "can_reach decides arrival + turnaround <= start (equality admitted)")
     if fd is not None:
